@@ -71,15 +71,23 @@ func parseTimeZone(tz string) (*time.Location, error) {
 		return nil, fmt.Errorf("invalid timezone")
 	}
 
+	// the remaining four characters must be digits
+	// (Atoi on its own would also accept a sign).
+	for _, c := range tz[1:] {
+		if c < '0' || c > '9' {
+			return nil, fmt.Errorf("invalid timezone")
+		}
+	}
+
 	// take the first two digits as "HH"
 	hours, err := strconv.Atoi(tz[1:3])
-	if err != nil {
+	if err != nil || hours > 23 {
 		return nil, fmt.Errorf("invalid timezone")
 	}
 
 	// take the last two digits as "MM"
 	minutes, err := strconv.Atoi(tz[3:5])
-	if err != nil {
+	if err != nil || minutes > 59 {
 		return nil, fmt.Errorf("invalid timezone")
 	}
 
